@@ -6,6 +6,7 @@ package main
 import (
 	"bytes"
 	"encoding/binary"
+	"encoding/hex"
 	"fmt"
 	"math"
 	"reflect"
@@ -60,6 +61,8 @@ type val struct {
 	Vt   string `json:"vt,omitempty"`
 	K    string `json:"k,omitempty"`
 	E    []*val `json:"e,omitempty"`
+	F    []*val `json:"f,omitempty"`
+	Et   string `json:"et,omitempty"`
 	Dims []int  `json:"dims,omitempty"`
 }
 
@@ -218,6 +221,13 @@ func tokBytes(ts []tok) []byte {
 			b.Write(g.Data4)
 		case "raw":
 			b.Write(raws[t.A])
+		case "rep":
+			// n copies of the bytes given in hex (nesting prefixes)
+			unit, err := hex.DecodeString(t.A)
+			if err != nil {
+				panic("bad rep token " + t.A)
+			}
+			b.Write(bytes.Repeat(unit, int(t.N)))
 		default:
 			panic("bad token kind " + t.K)
 		}
